@@ -167,11 +167,8 @@ fn compute_block_facts<'ast, 'arena>(
                         note_use(&mut uses, &defs, local, local_start);
                     }
                 }
-                for &local in &summary.transitive_capture_writes {
-                    if facts.locals[local.0 as usize].owner == function {
-                        note_def(&mut defs, local, local_start);
-                    }
-                }
+                // Capture writes are may-writes (the callee can return before it
+                // assigns), so they never act as definitions here.
             }
         }
 
@@ -193,13 +190,7 @@ fn apply_op_transfer(
     for &local in &op.writes {
         clear_local(live, local, local_start);
     }
-    for &callee in &op.direct_callees {
-        for &local in &summaries[callee.0 as usize].transitive_capture_writes {
-            if facts.locals[local.0 as usize].owner == function {
-                clear_local(live, local, local_start);
-            }
-        }
-    }
+    // A callee's capture writes are may-writes: they do not kill liveness.
 
     for &local in &op.reads {
         set_local(live, local, local_start);
